@@ -19,6 +19,7 @@ import (
 
 	"github.com/sourcenetwork/defradb/client"
 	"github.com/sourcenetwork/defradb/client/request"
+	"github.com/sourcenetwork/defradb/errors"
 )
 
 func (db *DB) basicImport(ctx context.Context, filepath string) (err error) {
@@ -245,9 +246,28 @@ func (db *DB) basicExport(ctx context.Context, config *client.BackupConfig) (err
 		if err != nil {
 			return err
 		}
+		// The channel is fed by a goroutine that keeps a datastore iterator open until the
+		// channel has been read to the end. Drain it on every return path, otherwise the
+		// iterator outlives the transaction and discarding the transaction panics.
+		defer func() {
+			for range docIDsCh {
+				// discard
+			}
+		}()
 
 		firstDoc := true
 		for docResultWithID := range docIDsCh {
+			if docResultWithID.Err != nil {
+				return docResultWithID.Err
+			}
+			doc, err := col.Get(ctx, docResultWithID.ID, false)
+			if errors.Is(err, client.ErrDocumentNotFoundOrNotAuthorized) {
+				// GetAllDocIDs also yields the ids of deleted documents, they are not exported.
+				continue
+			}
+			if err != nil {
+				return err
+			}
 			if firstDoc {
 				firstDoc = false
 			} else {
@@ -256,10 +276,6 @@ func (db *DB) basicExport(ctx context.Context, config *client.BackupConfig) (err
 				if err != nil {
 					return err
 				}
-			}
-			doc, err := col.Get(ctx, docResultWithID.ID, false)
-			if err != nil {
-				return err
 			}
 
 			isSelfReference := false
